@@ -324,3 +324,10 @@ Theorem C14_shared_sequential_reading : forall S O (seq : S -> O -> S * out) (h 
   /\ map (fun x => snd (snd x)) (res_from seq s h) = run_ops seq s (map snd h).
 Proof. intros. exact (conj (st_from_final S O seq h s) (res_from_run_ops S O seq h s)). Qed.
 Print Assumptions C14_shared_sequential_reading.
+
+(* the schedule replay used by the correspondence (Run_C14.conc_small: `turn` = one pick of the harness' step
+   scheduler) only visits reachable states of the interleaving semantics *)
+Theorem C14_shared_replay_sound : forall S O (code : O -> prog S) fuel i g0 g,
+  reachable code g0 g -> reachable code g0 (turn code fuel i g).
+Proof. exact turn_reachable. Qed.
+Print Assumptions C14_shared_replay_sound.
